@@ -207,3 +207,39 @@ func VerifHarness_C01_CachedLimits() {
 	}
 	verifReach("checked")
 }
+
+// NLP path on queries that carry an intent (install / create / delete / remove ...), against
+// commands that speak the same, the opposite or no intent vocabulary, some of them reached only
+// through a tag or a keyword (weak lexical score): whatever the later stages add to or take from
+// a score, the list contract holds
+func VerifHarness_C01_NLPIntents() {
+	mk := func(cmd, desc string, kws, tags []string) Command {
+		c := Command{Command: cmd, Description: desc, Keywords: kws, Tags: tags}
+		vFill(&c)
+		return c
+	}
+	db := &Database{Commands: []Command{
+		mk("apt install nginx", "install the web server", []string{"install"}, nil),
+		mk("apt purge nginx", "remove the web server completely", []string{"uninstall"}, nil),
+		mk("yarn remove pkg", "drop a dependency", []string{"dependency"}, []string{"nginx", "folder"}),
+		mk("nginx -t", "check the configuration", nil, nil),
+		mk("rm -rf build", "delete the (folder)", []string{"cleanup"}, nil),
+		mk("mkdir -p build", "create a folder and its parents", []string{"folder"}, nil),
+		mk("touch build/x", "make an empty file", nil, []string{"folder", "create"}),
+		mk("rmdir build", "remove.", []string{"folder"}, nil),
+	}}
+	db.BuildUniversalIndex()
+	db.buildTFIDFSearcher()
+	q := []string{"install nginx", "how to install nginx", "create folder", "create a new folder", "delete folder", "remove nginx",
+		"uninstall nginx", "make folder", "find folder", "show nginx"}[verifIntRange("query", 0, 9)]
+	o := SearchOptions{Limit: []int{0, 1, 3, 20}[verifIntRange("limit", 0, 3)], AllPlatforms: true, UseNLP: true, UseFuzzy: verifBool("fuzzy")}
+	res := db.SearchUniversal(q, o)
+	c01Shape(db, res, o.Limit, "NLP path, intent queries")
+	cdb := NewCachedDatabase(db)
+	_ = cdb.SearchWithOptionsAndCache(q, o)
+	c01Shape(db, cdb.SearchWithOptionsAndCache(q, o), o.Limit, "NLP path, intent queries, cached answer")
+	verifReach("checked")
+	if len(res) > 0 {
+		verifReach("nonempty")
+	}
+}
